@@ -57,6 +57,16 @@ def code_of(name):
     return -1
 
 
+def schema_of(tr, A, nnum):
+    """the indicator columns, read off what the transformer returns for its own training frame (public behaviour); the
+    private `_schema` attribute only if that call fails"""
+    num = {"n%d" % (c + 1) for c in range(nnum)}
+    try:
+        return [c for c in tr.transform(A.copy(deep=True)).columns if c not in num]
+    except Exception:
+        return list(getattr(tr, "_schema")[0])
+
+
 def observe(cats, remove, skip, frame_rows, ncat, nnum, kind="str"):
     from mlinsights.mlmodel import CategoriesToIntegers
     KIND[0] = kind
@@ -70,7 +80,8 @@ def observe(cats, remove, skip, frame_rows, ncat, nnum, kind="str"):
     B0 = B.copy(deep=True)
     out = {}
     tr = CategoriesToIntegers(columns=cols, remove=rm, skip_errors=skip, single=False).fit(A)
-    out["schema"] = [code_of(s) for s in tr._schema[0]]
+    sch = schema_of(tr, A, nnum)
+    out["schema"] = [code_of(s) for s in sch]
     try:
         R = tr.transform(B)
         out["outcome"] = "ok"
@@ -82,7 +93,6 @@ def observe(cats, remove, skip, frame_rows, ncat, nnum, kind="str"):
         R = None
     out.update(res=[[] for _ in frame_rows], others_nan=True, numeric_ok=True, index_ok=True)
     if R is not None:
-        sch = list(tr._schema[0])
         ok_cols = list(R.columns) == ["n%d" % (c + 1) for c in range(nnum)] + sch
         M = R[sch].to_numpy(dtype=float) if ok_cols else numpy.full((len(frame_rows), len(sch)), 7.0)
         out["res"] = [[int(q) for q in numpy.where(M[r] == 1.0)[0]] for r in range(M.shape[0])]
